@@ -8,13 +8,14 @@ from ..cfg import CFG
 from .. import storage
 
 MANIFEST = {
-    'technique': 'must-follow / who-may-write rule on every re-binding of a molar indexer\'s storage (the cached mass/volume views wrap the old dicts); linear-form inverse-pair checks for the unit and view conversions; totality of the dimension dispatch',
-    'text': 'Decides for every history: every statement that re-binds the storage a mass/volume view wraps (indexer.data, data.rows) outside '
-            'constructors is accompanied on every path by dropping or replacing that indexer\'s cached views; get_flow/set_flow, '
-            'get_total_flow/set_total_flow and the DictionaryView input/output pairs compose to the identity as symbolic forms; the total-flow '
-            'setters scale the whole molar data by value/current; the units dispatch ends in DimensionError and takes each factor from the units '
-            'object of the matching dimension; the volumetric view recomputes V when its cached thermal condition differs and caches a copy. '
-            'Numerical conversion factors (pint) are not decided.',
+    'technique': "must-follow / who-may-write rule on every re-binding of a molar indexer's storage (the cached mass/volume views wrap the old dicts); linear-form "
+            'inverse-pair checks for the unit and view conversions; totality of the dimension dispatch; sibling-agreement rule link_with/unlink',
+    'text': 'Decides for every history: every statement that re-binds the storage a mass/volume view wraps (indexer.data, data.rows) outside constructors is '
+            "accompanied on every path by dropping or replacing that indexer's cached views; get_flow/set_flow, get_total_flow/set_total_flow and the "
+            'DictionaryView input/output pairs compose to the identity as symbolic forms; the total-flow setters scale the whole molar data by value/current; the '
+            'units dispatch ends in DimensionError and takes each factor from the units object of the matching dimension; the volumetric view recomputes V when its '
+            'cached thermal condition differs and caches a copy; unlink re-binds everything link_with can share, the view cache included. Numerical conversion '
+            'factors (pint) are not decided.',
 }
 
 ST = 'thermosteam/_stream.py'
@@ -30,6 +31,7 @@ def run(ctx):
         'D2 inverse pairs: get/set flow, get/set total flow, DictionaryView output/input, total-flow setters scale the whole data',
         'D3 dimension dispatch ends in DimensionError; each factor from the units object of its own dimension',
         'D4 VolumetricFlowDict recomputes V when the cached thermal condition differs and caches a copy of TP',
+        'D5 unlink re-binds everything link_with can share, including the view cache (a shared cache hands one stream the views of the other)',
     ]
     ctx.not_decided = ['numerical conversion factors', 'molar volume model values']
     d1 = ctx.rule('D1', 'views follow the storage', floor=6)
@@ -40,6 +42,9 @@ def run(ctx):
     inverse_pairs(ctx, d2)
     dimension(ctx, d3)
     volumetric(ctx, d4)
+    d5 = ctx.rule('D5', 'after unlink the mass/volume view cache is the stream\'s own', floor=4)
+    from .C13 import unlink_rule
+    unlink_rule(ctx, d5)
 
 
 def _cache_drop_pred(recv):
